@@ -341,7 +341,7 @@ func runProperty(eng *Engine, prop, tier string, timeout int, findings []Finding
 		}
 		res.Funcs = append(res.Funcs, shortFuncKey(k))
 		for i, o := range rep.Obls {
-			if prop == "C11" && o.Kind != "frame:global" && !o.Cover {
+			if prop == "C11" && o.Kind != "frame:global" && o.Kind != "order:maprange" && !o.Cover {
 				continue
 			}
 			if prop == "C10" && !(strings.HasPrefix(o.Kind, "safe") || o.Kind == "dec" || (o.Kind == "pre" && (strings.Contains(o.Sub, "#recv") || strings.Contains(o.Sub, "#nonnil"))) || o.Cover) {
@@ -584,7 +584,7 @@ func classify(eng *Engine, g *OblGroup, prop string, findings []Finding, lock ma
 		}
 	}
 	// the function was verified through a helper without contract that could not be handled exactly: undecided
-	if rep := failing[0].rep; rep != nil && len(rep.Imprecise) > 0 && !g.Instances[0].obl.Cover && !strings.HasPrefix(g.Kind, "frame:global") {
+	if rep := failing[0].rep; rep != nil && len(rep.Imprecise) > 0 && !g.Instances[0].obl.Cover && !strings.HasPrefix(g.Kind, "frame:global") && g.Kind != "order:maprange" {
 		g.Status = "undecided"
 		res.Undecided = append(res.Undecided, fmt.Sprintf("obligation=%s reason=not discharged (%s); the function calls %s - it needs a contract before this can be decided", g.Name, failing[0].job.res.Status, strings.Join(rep.Imprecise, "; ")))
 		return
